@@ -10,6 +10,8 @@
      NextPage plan   start_fetching_next_page() (the load-balancing policy returns `plan`)
      AddCb           add_callbacks(cb, eb)
      Result          result() when it does not block
+     KsReport c h e  pool h finishes the internal USE of keyspace propagation c (Session._set_keyspace_for_all_pools ->
+                     pool._set_keyspace_for_all_conns -> pool_finished_setting_keyspace), with / without an error
 
    Two switches select the code that is modelled:
      g  = true : _set_final_result/_set_final_exception keep the first outcome (guard under _callback_lock)
@@ -24,7 +26,8 @@ Local Open Scope Z_scope.
 
 Inductive op :=
 | Send | SetPools (ps : list (Z * pstate)) | Tick (d : Z) | Resp (a : nat) (k : rkind) | Fire (k : nat) | Run (k : nat)
-| NextPage (pl : list Z) | AddCb | Result.
+| NextPage (pl : list Z) | AddCb | Result
+| KsReport (c : nat) (h : Z) (err : bool).   (* pool h reports the outcome of its internal USE to propagation c *)
 
 Record config := mkConfig { c_plan : list Z; c_timeout : option Z; c_specs : list Z; c_pools : list (Z * pstate); c_now : Z }.
 
@@ -110,13 +113,15 @@ Definition set_final_exception (e : Z) (s : state) : state :=
   else set_event true (set_pairs (run_ebs e (pairs s)) (set_fexc (Some e) s)).
 
 (* ---------------------------------------------------------------- sending *)
-(* _query(host): (state, request id or None) *)
+(* _query(host): (state, request id or None).  self._req_id is set right after borrow_connection, before send_msg, for every
+   caller (send_request, same-host retry); it is cleared again when send_msg raised (nothing is outstanding on that stream) *)
 Definition query (h : Z) (s : state) : state * option nat :=
   match pool_of (pools s) h with
   | PMissing | PShutdown => (s, None)
   | PNoConn => (set_cur_host (Some h) s, None)
-  | PSendFail => (set_cur_conn (Some h) (set_cur_host (Some h) s), None)
-  | POk => (set_attempts (attempts s ++ [mkAtt h true]) (set_cur_conn (Some h) (set_cur_host (Some h) s)),
+  | PSendFail => (set_cur_req None (set_cur_conn (Some h) (set_cur_host (Some h) s)), None)
+  | POk => (set_cur_req (Some (length (attempts s)))
+              (set_attempts (attempts s ++ [mkAtt h true]) (set_cur_conn (Some h) (set_cur_host (Some h) s))),
             Some (length (attempts s)))
   end.
 
@@ -153,7 +158,7 @@ Fixpoint send_loop (err : bool) (pl : list Z) (s : state) : state :=
   | h :: rest =>
     let '(s1, r) := query h s in
     match r with
-    | Some id => set_cur_req (Some id) (set_plan rest s1)
+    | Some id => set_plan rest s1
     | None => if timed_out_now s1 then on_timeout 0 (set_plan rest s1) else send_loop err rest s1
     end
   end.
@@ -177,6 +182,41 @@ Definition retry (reuse : bool) (h : Z) (s : state) : state :=
   let s := set_retries (retries s + 1) s in
   if is_some (fexc s) then s else set_queue (queue s ++ [(reuse, h)]) s.
 
+(* Session._set_keyspace_for_all_pools(keyspace, self._set_keyspace_completed): pools that are shut down report at once
+   (no error); if nothing is left to wait for, _set_keyspace_completed({}) -> _set_final_result(None) *)
+Fixpoint ks_hosts (ps : list (Z * pstate)) : list Z :=
+  match ps with
+  | [] => []
+  | (h, PMissing) :: r | (h, PShutdown) :: r => ks_hosts r
+  | (h, _) :: r => h :: ks_hosts r
+  end.
+Definition start_chain (s : state) : state :=
+  match ks_hosts (pools s) with
+  | [] => set_final_result 1 s
+  | hs => set_chains (chains s ++ [(hs, false)]) s
+  end.
+
+Fixpoint remove_z (h : Z) (l : list Z) : list Z :=
+  match l with [] => [] | x :: r => if x =? h then r else x :: remove_z h r end.
+Fixpoint mem_z (h : Z) (l : list Z) : bool :=
+  match l with [] => false | x :: r => (x =? h) || mem_z h r end.
+
+(* pool_finished_setting_keyspace(pool, host_errors); the last report calls _set_keyspace_completed(errors) *)
+Definition ks_report (c : nat) (h : Z) (err : bool) (s : state) : state :=
+  match nth_error (chains s) c with
+  | Some (hs, e) =>
+    if mem_z h hs then
+      let hs' := remove_z h hs in
+      let e' := e || err in
+      let s1 := set_chains (upd_nth c (fun _ => (hs', e')) (chains s)) s in
+      match hs' with
+      | [] => if e' then set_final_exception 4 s1 else set_final_result 1 s1
+      | _ :: _ => s1
+      end
+    else s
+  | None => s
+  end.
+
 Definition set_result (a : nat) (h : Z) (k : rkind) (s : state) : state :=
   match k with
   | RRows more => set_final_result (10 + Z.of_nat a) (set_paging more s)
@@ -186,6 +226,7 @@ Definition set_result (a : nat) (h : Z) (k : rkind) (s : state) : state :=
   | RRetry DRethrow => set_final_exception (10 + Z.of_nat a) s
   | RRetry DIgnore => set_final_result 1 s
   | ROther => set_final_exception (10 + Z.of_nat a) s
+  | RSetKs => start_chain s
   | RJunk => set_final_exception (10 + Z.of_nat a) (cancel_timer s)
   end.
 
@@ -245,12 +286,13 @@ Definition step (s : state) (o : op) : state :=
   | NextPage pl => if paging s then next_page pl s else s
   | AddCb => add_cb s
   | Result => match result_call s with Some r => set_results (results s ++ [r]) s | None => s end
+  | KsReport c h err => ks_report c h err s
   end.
 
 (* __init__ (ends with _start_timer()) *)
 Definition init (c : config) : state :=
   start_timer (mkState (c_plan c) [] None None None 0 [] None (c_specs c) None None false [] false
-                       (c_now c) (c_now c) (c_timeout c) (c_now c) [] (c_pools c) false false []).
+                       (c_now c) (c_now c) (c_timeout c) (c_now c) [] (c_pools c) false false [] [] 0).
 
 Definition run (s : state) (h : list op) : state := fold_left step h s.
 
@@ -280,7 +322,9 @@ Definition obs (s : state) : list Z :=
   ++ flat_map obs_att (attempts s)
   ++ [om (cur_host s); om (cur_conn s); onat (cur_req s); bz (paging s); Z.of_nat (length (pairs s))]
   ++ flat_map obs_pair (pairs s)
-  ++ [Z.of_nat (length (results s)); fst (last (results s) (-1, 0)); snd (last (results s) (-1, 0))].
+  ++ [Z.of_nat (length (results s)); fst (last (results s) (-1, 0)); snd (last (results s) (-1, 0))]
+  ++ [swallowed s; Z.of_nat (length (chains s))]
+  ++ flat_map (fun c => [Z.of_nat (length (fst c)); bz (snd c)] ++ fst c) (chains s).
 
 Fixpoint zlist_eqb (a b : list Z) : bool :=
   match a, b with
@@ -313,7 +357,8 @@ Definition pair_reports (s : state) (p : pair) : bool :=
 Definition all_answered (s : state) : bool :=
   negb (match attempts s with [] => true | _ => false end)
   && forallb (fun a => negb (aopen a)) (attempts s)
-  && match queue s with [] => true | _ => false end.
+  && match queue s with [] => true | _ => false end
+  && forallb (fun c => match fst c with [] => true | _ => false end) (chains s).
 Definition delivered (s : state) : bool :=
   event s && final_set s && forallb (fun p => (length (cbs p) + length (ebs p) =? 1)%nat) (pairs s).
 Definition c14_ok (s : state) : bool :=
